@@ -241,6 +241,13 @@ def write_replay(pid, seed, n, payload):
 def run_property(pid, tier, seed):
     t0 = time.time()
     spec = PROPS[pid]
+    # replay files of earlier runs of this property and seed are stale once the check runs again
+    import glob
+    for old in glob.glob(os.path.join(VERIF, "replays", "%s-seed%s-*.json" % (pid, seed))):
+        try:
+            os.remove(old)
+        except OSError:
+            pass
     module = spec.get("module", "GGV.Props.%s" % pid)
     theorems = spec["theorems"]
     suites = spec["suites"]
